@@ -116,6 +116,14 @@ int parity_chsize(struct snapraid_parity_handle* handle, struct snapraid_parity*
 void parity_size(struct snapraid_parity_handle* handle, data_off_t* out_size);
 
 /**
+ * Get the size of the parity really available on disk.
+ *
+ * Like parity_size() but each split counts only for the part
+ * that really exists in the file.
+ */
+void parity_valid_size(struct snapraid_parity_handle* handle, data_off_t* out_size);
+
+/**
  * Open an already existing parity file.
  */
 int parity_open(struct snapraid_parity_handle* handle, const struct snapraid_parity* parity, unsigned level, int mode, uint32_t block_size, data_off_t limit_size);
